@@ -1337,15 +1337,25 @@ func (f *VFSFile) runHydration(infos []*ltx.FileInfo) {
 		hydrationTXID = f.hydrator.TXID()
 	}
 
-	if currentTXID > hydrationTXID {
-		if err := f.hydrator.CatchUp(f.ctx, hydrationTXID, currentTXID); err != nil {
+	// Polls (or ResetTime) may have advanced the position while we were
+	// restoring; their updates were not written to the hydrated file. Catch up
+	// until the file is at the position, and flip to complete under f.mu so
+	// that no poll can slip in between the check and the flip.
+	for {
+		f.mu.Lock()
+		currentTXID = f.pos.TXID
+		if currentTXID <= f.hydrator.TXID() {
+			f.hydrator.SetComplete()
+			f.mu.Unlock()
+			break
+		}
+		f.mu.Unlock()
+		if err := f.hydrator.CatchUp(f.ctx, f.hydrator.TXID(), currentTXID); err != nil {
 			f.hydrator.SetErr(err)
 			f.logger.Error("hydration catch-up failed", "error", err)
 			return
 		}
 	}
-
-	f.hydrator.SetComplete()
 
 	// Clear cache since we'll now read from hydration file
 	f.cache.Purge()
